@@ -130,6 +130,23 @@ def gen_sequence(rng, profile):
     return D, ops
 
 
+def cost(D, ops):
+    """number of deepest-level pixels the history touches (the list model is quadratic in it)"""
+    n = 0
+    for o in ops:
+        cells = [(o['d'], p) for p in o['ps']] if 'ps' in o else o['o']['cells'] if 'o' in o else []
+        for d, p in cells:
+            n += 4 ** max(0, D - d)
+    return n
+
+
+def gen_bounded(rng, profile, limit=1500):
+    while True:
+        D, ops = gen_sequence(rng, profile)
+        if cost(D, ops) <= limit:
+            return D, ops
+
+
 def hintable(t):
     return len(t) > 0
 
@@ -194,7 +211,7 @@ def all_cases(ctx):
             cases.append((f'exhaustive-D{D}-L3' if not quick else f'sampled-D{D}-L3', D, list(seq)))
     for prof, n in (('small', 150 if quick else 2500), ('mid', 120 if quick else 2000), ('deep', 40 if quick else 600)):
         for _ in range(n):
-            D, ops = gen_sequence(rng, prof)
+            D, ops = gen_bounded(rng, prof)
             cases.append((f'random-{prof}', D, ops))
     return cases
 
@@ -302,9 +319,13 @@ def search(ctx):
                 if p:
                     ops = shrink(D, list(seq), ctx.work, lambda d, o: impl_problem(d, o, ctx.work) is not None)
                     return {'D': D, 'ops': ops, 'what': impl_problem(D, ops, ctx.work)}
-                if time.time() - t0 > 200:
+                if time.time() - t0 > 90:
                     break
-    while time.time() - t0 < 400:
+            if time.time() - t0 > 90:
+                break
+        if time.time() - t0 > 90:
+            break
+    while time.time() - t0 < 180:
         D, ops = gen_sequence(rng, rng.choice(['small', 'mid', 'deep']))
         p = impl_problem(D, ops, ctx.work)
         if p:
